@@ -255,6 +255,41 @@ def rule_p2(ctx, F):
             ctx.bad("P2", "ts_subtree_new_error_node", "ts_subtree_new_error_node no longer builds its node through ts_subtree_new_node(ts_builtin_sym_error, …)")
 
 
+MERGE_KEYS = ["state", "position.bytes", "error_cost"]
+
+
+def rule_merge(ctx, F):
+    """M1: two stack nodes are merged only if they agree on parse state, byte position and error
+    cost — at the version level (ts_stack_can_merge) and when links are merged recursively
+    (stack_node_add_link).  Merging nodes at different positions makes a later pop collect children
+    whose sizes do not add up: the tree no longer tiles the text."""
+    fn = ctx.need_fn(F, "stack_node_add_link", "M1")
+    if fn:
+        rec = [pt for pt, c in fn.calls() if callee_name(c) == "stack_node_add_link"]
+        ctx.floor("recursive link merges in stack_node_add_link", len(rec), 1)
+        ctx.gate("M1", fn, rec, [("previous nodes merged only with equal %s" % k, "existing_link->node->%s == link.node->%s" % (k, k), True) for k in MERGE_KEYS],
+                 accept_desc="merging the previous nodes")
+    fn = ctx.need_fn(F, "ts_stack_can_merge", "M1")
+    if fn:
+        rets = [strip(e["e"]) for pt, e in fn.points() if e.get("k") == "ret"]
+        cj = [c for r in rets for c in conjuncts(r)]
+        m = M(fn)
+        for k in MERGE_KEYS:
+            key = "ts_stack_can_merge:compares-" + k
+            if any(m.match("head1->node->%s == head2->node->%s" % (k, k), c) for c in cj):
+                ctx.ok("M1", key, "versions are mergeable only with equal %s" % k)
+            else:
+                ctx.bad("M1", key, "ts_stack_can_merge no longer requires equal %s of the two heads" % k, {"function": fn.name})
+        if any(m.match("ts_subtree_external_scanner_state_eq(head1->last_external_token, head2->last_external_token)", c) for c in cj):
+            ctx.ok("M1", "ts_stack_can_merge:compares-scanner-state", "versions are mergeable only with equal external scanner state")
+        else:
+            ctx.bad("M1", "ts_stack_can_merge:compares-scanner-state", "ts_stack_can_merge no longer compares the external scanner states of the two heads")
+    fn = ctx.need_fn(F, "ts_stack_merge", "M1")
+    if fn:
+        adds = [pt for pt, c in fn.calls() if callee_name(c) == "stack_node_add_link"]
+        ctx.gate("M1", fn, adds, [("versions are merged only if ts_stack_can_merge allows it", "ts_stack_can_merge(self, version1, version2)", True)], accept_desc="merging two versions")
+
+
 def run(ctx):
     for cfg in configs(ctx):
         ctx.config = cfg
@@ -265,6 +300,7 @@ def run(ctx):
         rule_inline_widths(ctx, F)
         rule_p1(ctx, F)
         rule_p2(ctx, F)
+        rule_merge(ctx, F)
         import C06
         sav = C06.ALIAS_READERS
         C06.ALIAS_READERS = [a for a in sav if a[0] == "ts_subtree_summarize_children"]
